@@ -1,4 +1,4 @@
-// Reproductions of the genuine defects F1..F4, F6 against the real crate.
+// Reproductions of the genuine defects F1..F4, F6..F10 against the real crate.
 // Usage (scratch copy only): copy to src/tests/verif_repro.rs and add `mod verif_repro;` to src/tests/mod.rs.
 use super::{create_database, rng};
 use crate::distance::{BinaryQuantizedEuclidean, Euclidean};
@@ -160,5 +160,44 @@ fn f9_bq_cosine_self_distance_is_zero_for_every_dimension() {
         let q: Leaf<BinaryQuantizedCosine> = Leaf { header: BinaryQuantizedCosine::new_header(&uv), vector: Cow::Owned(uv.clone().into_owned()) };
         let dist = BinaryQuantizedCosine::normalized_distance(BinaryQuantizedCosine::built_distance(&p, &q), d);
         assert!(dist == 0.0, "dimension {d}: distance of a vector to itself is {dist:e}");
+    }
+}
+
+/// F10: a `true` answer of the cancellation callback (or a read error) while the used tree-node
+/// ids are collected is swallowed: the ids are silently reported as all free.
+#[test]
+fn f10_cancellation_seen_while_collecting_the_used_node_ids_is_reported() {
+    let handle = create_database::<Euclidean>();
+    let mut wtxn = handle.env.write_txn().unwrap();
+    let writer = Writer::new(handle.database, 0, 2);
+    for i in 0..100u32 {
+        writer.add_item(&mut wtxn, i, &[i as f32, (i * i % 17) as f32]).unwrap();
+    }
+    writer.builder(&mut rng()).n_trees(3).split_after(4).build(&mut wtxn).unwrap();
+    wtxn.commit().unwrap();
+
+    let mut wtxn = handle.env.write_txn().unwrap();
+    for i in 100..140u32 {
+        writer.add_item(&mut wtxn, i, &[i as f32, (i * i % 17) as f32]).unwrap();
+    }
+    let in_step = std::sync::atomic::AtomicBool::new(false);
+    let res = writer
+        .builder(&mut rng())
+        .n_trees(3)
+        .split_after(4)
+        .progress(|p| in_step.store(p.main == crate::writer::MainStep::RetrievingTheUsedTreeNodes, std::sync::atomic::Ordering::SeqCst))
+        // answers `true` once, at the first poll made while the used node ids are collected
+        .cancel(|| in_step.swap(false, std::sync::atomic::Ordering::SeqCst))
+        .build(&mut wtxn);
+    match res {
+        Err(crate::Error::BuildCancelled) => (),
+        Err(e) => panic!("unexpected error {e}"),
+        Ok(()) => {
+            wtxn.commit().unwrap();
+            let rtxn = handle.env.read_txn().unwrap();
+            let reader = Reader::open(&rtxn, 0, handle.database).unwrap();
+            let valid = reader.assert_validity(&rtxn);
+            panic!("the build swallowed the cancellation and reported success; forest validity: {valid:?}");
+        }
     }
 }
